@@ -39,7 +39,7 @@ CHECKS = {
    "(A) command bodies with symbolic characters over the shell-word alphabet inside the four bracket forms (bodies of length <= 2/3 fully symbolic, seeds with 1-2 symbolic "
    "characters) are compared with an independent whitespace word-splitting model; (B) n <= 3/4 word tokens with symbolic kinds and symbolic gaps: z3 proves on every path "
    "class that neighbouring words share an argument exactly when their gap is 0.",
-   TRUST + "the word model (whitespace split, quotes/brackets protect; glued mixed words checked for count and span only)", SYM + " + z3 gap/adjacency proofs"),
+   TRUST + "the word model (whitespace split, quotes incl. multi-line triple quotes/brackets protect, an empty nested macro `$(cmd!)` is one piece; glued mixed words checked for count and span only)", SYM + " + z3 gap/adjacency proofs"),
  "C07": ("model_checking", "§2 C07",
    "Macro call arguments, subprocess-macro rests and with-macro blocks carry symbolic characters and run through the real tokenizer, raw-capture token source and parser; "
    "the captured string constants are compared with independent reference models (bracket/quote-aware comma splitter, strip, block dedenter) and the code around/after the "
